@@ -139,7 +139,8 @@ def gen_history(rng, name, modes, nops=None, listen=0):
             kind = rng.choice(["reply", "reply", "reply", "replyc", "suspend" if cfg["suspend"] else "reply"])
             if rid == 3:
                 kind = "upgrade"
-            if rid == 2 and rng.random() < 0.7:
+            # (a client that stops reading blocks a big reply on the AF_UNIX pair only: loopback TCP buffers swallow it)
+            if rid == 2 and rng.random() < 0.7 and not cfg.get("listen"):
                 L.append("hold %d" % c)
                 m.held.append(c)
             # interim "102 Processing" replies before the final one (every handler call answers with one)
